@@ -237,6 +237,11 @@ class ProofPart:
             r.reason = 'annotation-rejected: ' + str(e)
             r.wall_s = time.time() - t0
             return r
+        except Exception as e:      # noqa: a shape the contract generator does not cover, a compiler that does not build, ...: cannot decide, never an alarm
+            r.status = 'undecided'
+            r.reason = 'assembly-failed (%s): %s' % (type(e).__name__, str(e)[:600])
+            r.wall_s = time.time() - t0
+            return r
         text = asm.render()
         path = os.path.join(workdir(), _slug(self.label) + '.rs')
         with open(path, 'w') as f:
@@ -344,7 +349,7 @@ class ProofPart:
         them must fail (a contradictory requires would make one pass)."""
         try:
             asm = self._assemble(True)
-        except (LostAnchor, NotGhost) as e:
+        except Exception as e:      # noqa
             r.status = 'undecided'
             r.reason = 'canary-assembly: ' + str(e)
             return
